@@ -163,6 +163,8 @@ func (c *tdxValidateCommand) runE(cmd *cobra.Command, args []string) error {
 			Overwrite:    s.overwrite,
 			BasePolicy:   s.basePolicy,
 			RootsOfTrust: rot,
+			// The persistent --ram_gib flag names the launch configuration to validate.
+			ExpectedRAMGiB: s.ramGiB,
 		})
 }
 
